@@ -147,7 +147,8 @@ type case = {
   mutable evs : (event * string) list; mutable blocked : string; mutable lives : int list;
   mutable parks : int; mutable outcome : string; mutable notes : string list;
   mutable cens : (int * int * int * int) list; (* (model events before, kids, workers, other) *)
-  mutable helds : (int * int) list (* (number of model events before the observation, sequence number held) *) }
+  mutable helds : (int * int) list; (* (number of model events before the observation, sequence number held) *)
+  mutable childstates : int list option (* names listed by GetChildStates() at final quiescence *) }
 
 let count f l = List.length (List.filter f l)
 
@@ -229,6 +230,17 @@ let finish (c : case) =
         opened = closed && cbs > 0 && k <> cbs in
       if List.exists stale c.helds then 30 else 0
     end in
+  (* C11 "GetChildStates()/String() after Reload returns" (observe_at): at final quiescence GetChildStates()
+     lists exactly the names of the stored configuration of SOME model state compatible with the whole trace
+     (hand-written, like clause 30) *)
+  let v11 =
+    if v11 <> 0 || finals = [] then v11
+    else match c.childstates with
+      | None -> v11
+      | Some obs ->
+        let names_of_state st =
+          List.sort_uniq compare (List.map (fun e -> int_of_n (name_of p (fst e))) (entries_of st)) in
+        if List.exists (fun st -> names_of_state st = obs) finals then 0 else 31 in
   let oops = List.exists (fun s -> s.oops) finals in
   if finals <> [] && !cover then begin
     match witness p (Array.of_list evs) with
@@ -326,7 +338,7 @@ let () =
        match t with
        | "CASE" :: id :: fam :: "pool" :: _ :: specs ->
          cur := Some { id; family = fam; pool = List.map parse_spec specs; evs = []; blocked = ""; lives = [];
-                       parks = 0; outcome = "?"; notes = []; helds = []; cens = [] }
+                       parks = 0; outcome = "?"; notes = []; helds = []; cens = []; childstates = None }
        | "E" :: "Blocked" :: [b] -> (match !cur with Some c -> c.blocked <- b | None -> ())
        | "E" :: "Census" :: [k; w; o] ->
          (match !cur with
@@ -335,6 +347,17 @@ let () =
        | "E" :: "Held" :: [k] ->
          (match !cur with Some c -> c.helds <- (List.length c.evs, int_of_string k) :: c.helds | None -> ())
        | "E" :: "Live" :: _ :: [k] -> (match !cur with Some c -> c.lives <- c.lives @ [int_of_string k] | None -> ())
+       | "E" :: "Note" :: "childstates" :: rest ->
+         (* "child-<name>,child-<name>,..." : the keys of GetChildStates() (one per distinct String()) *)
+         (match !cur with
+          | Some c ->
+            let names = match rest with
+              | [] -> []
+              | l :: _ -> List.filter_map (fun x ->
+                  match String.split_on_char '-' x with ["child"; n] -> (try Some (int_of_string n) with _ -> None) | _ -> None)
+                  (String.split_on_char ',' l) in
+            c.childstates <- Some (List.sort_uniq compare names)
+          | None -> ())
        | "E" :: "Note" :: "park-reached" :: _ -> (match !cur with Some c -> c.parks <- c.parks + 1 | None -> ())
        | "E" :: "Note" :: _ -> ()
        | "E" :: ev ->
